@@ -143,3 +143,31 @@ POS_INC = dict(file="src/state.rs", container="AtomicPosition", name="inc", sig_
                ensures=[("C07-inc-wraps", "final(self).pos@ as nat == (old(self).pos@ as nat + delta as nat) % 0x1_0000_0000_0000_0000"), _POS_FRAME])
 POS_DEC = dict(file="src/state.rs", container="AtomicPosition", name="dec", sig_rewrites=[SELF_MUT], rewrites=[AORD(1)],
                ensures=[("C07-dec-wraps", "final(self).pos@ as int == (old(self).pos@ as int - delta as int) % 0x1_0000_0000_0000_0000"), _POS_FRAME])
+
+LIMITER_SPEC_NOPOS = r"""
+// ---- abstract token bucket (written from the property text: burst B, one token per interval I)
+pub struct LS { pub cap: nat, pub prev: int }
+spec fn credit(s: LS, t: int, I: int) -> int { s.cap * I + (t - s.prev) }
+// one call of allow() at time `now` (for `now` not earlier than the bucket's reference time)
+spec fn step(s: LS, now: int, s2: LS, res: bool, I: int) -> bool {
+    &&& (!res ==> s2 == s)                                            // (a) a refused request changes nothing
+    &&& (res && s.prev <= now ==> credit(s, now, I) >= I               // (b) a paint needs one interval of credit
+                 && credit(s2, now, I) <= credit(s, now, I) - I        //     and consumes it
+                 && s2.prev <= now)
+    &&& (s.prev <= now && now - s.prev >= I ==> res)                   // (d) one interval after the last paint => painted
+}
+// (c) "burst B": right after a paint less than B intervals of credit are left
+spec fn burst_ok(s2: LS, now: int, I: int, B: int) -> bool { credit(s2, now, I) < B * I }
+
+spec fn rel(now: Instant, start: Instant) -> int { now.ns() - start.ns() }
+"""
+
+RL_ALLOW = dict(file="src/draw_target.rs", container="RateLimiter", name="allow", ret="res", props=["C05"],
+                requires=[("wf", "old(self).wf()"), ("time-range", "now.ns() - old(self).prev.ns() <= DURATION_MAX_NS()")],
+                ensures=[("wf", "final(self).wf() && final(self).interval == old(self).interval"),
+                         ("C05-step", "step(old(self).ls(), now.ns() as int, final(self).ls(), res, old(self).ival())"),
+                         ("C05-burst", "res ==> burst_ok(final(self).ls(), now.ns() as int, old(self).ival(), 20)"),
+                         ("reference-time", "final(self).prev.ns() <= (if res { now.ns() } else { old(self).prev.ns() })")])
+
+# R20: `b |= e;` on bools (Verus rejects the non-short-circuit `|`): evaluate e first, then `||`
+BOOL_OR_ASSIGN = Rw("R20", r"(\w+) \|= ([^;]+);", r"{ let __or = \2; \1 = \1 || __or; }", count=None)
